@@ -263,7 +263,7 @@ func vLess(a, b []byte) bool {
 func vRefMultiWidth(recs []Record) []byte {
 	var out []byte
 	widths := []int{}
-	for w := 0; w <= 4; w++ {
+	for w := 0; w <= 64; w++ {
 		for _, r := range recs {
 			if len(vDigest(r.Cid)) == w {
 				widths = append(widths, w)
@@ -361,4 +361,36 @@ func VerifH_C11_CanonicalBytes() {
 	vAssert("rewrite-identical", err == nil && vBytesEq(w.buf, w2.buf))
 	vCover("two-widths", len(vDigest(recs[0].Cid)) != len(vDigest(recs[1].Cid)))
 	vCover("two-codes", vCode(recs[0].Cid) != vCode(recs[1].Cid))
+}
+
+// VerifH_C11_WideDigests: the same canonical-layout and lookup oracle for digests wider than a
+// machine word (identity CIDs over 9 arbitrary bytes; thorough also 32, the sha2-256 width): entries
+// ascending by the whole digest - also when two digests agree on their first eight bytes - for
+// either load order, and every record found again before and after a round trip.
+func VerifH_C11_WideDigests() {
+	codec := vCodec("codec")
+	W := 9
+	if vTier() == 1 && vChoose("w32", 2) == 1 {
+		W = 32
+	}
+	n := 2
+	recs := make([]Record, n)
+	for i := range recs {
+		recs[i] = Record{Cid: vCidIDN("rec", W), Offset: vU64("off")}
+	}
+	d0, d1 := vDigest(recs[0].Cid), vDigest(recs[1].Cid)
+	vAssume(!vBytesEq(d0, d1))
+	idx, _ := New(codec)
+	vAssert("load", idx.Load(recs) == nil)
+	w := &vWriter{}
+	cnt, err := WriteTo(idx, w)
+	vAssert("write-ok", err == nil && cnt == uint64(len(w.buf)))
+	vAssert("canonical-layout", vBytesEq(w.buf, vRefIndexBytes(codec, recs)))
+	q := recs[vChoose("q", 2)].Cid
+	vCheckLookup("", codec, idx, recs, q)
+	back, err := ReadFrom(&vStream{data: w.buf})
+	vAssert("read-ok", err == nil)
+	vCheckLookup("back-", codec, back, recs, q)
+	vCover("shared-leading-word-descending-load", vBytesEq(d0[:8], d1[:8]) && d0[8] > d1[8])
+	vCover("distinct-leading-word", !vBytesEq(d0[:8], d1[:8]))
 }
